@@ -778,22 +778,30 @@ func (st *pkgState) expand(fi *funcInfo, call *ast.CallExpr, sk sink) ([]ast.Stm
 			}
 		}
 	}
-	// deferred calls of the callee (only the modelled kind reaches this point): run at every return site
-	var deferred []*ast.CallExpr
+	// deferred calls of the callee (only the modelled kind reaches this point): each runs at the
+	// return sites that lie after its defer statement (deferredAt[i] = the calls registered
+	// before top-level statement i of the remaining body)
+	var deferredAt [][]*ast.CallExpr
+	anyDefer := false
 	{
 		var keep []ast.Stmt
+		var cur []*ast.CallExpr
 		for _, s := range cp.Body.List {
 			if d, ok := s.(*ast.DeferStmt); ok {
-				deferred = append(deferred, d.Call)
+				cur = append(append([]*ast.CallExpr(nil), cur...), d.Call)
+				anyDefer = true
 				continue
 			}
 			keep = append(keep, s)
+			deferredAt = append(deferredAt, cur)
 		}
+		deferredAt = append(deferredAt, cur) // falling off the end
 		cp.Body.List = keep
 	}
-	if sk.keepReturns && len(deferred) > 0 {
+	if sk.keepReturns && anyDefer {
 		return decline("deferred calls in tail position")
 	}
+	var deferred []*ast.CallExpr // the set in force for the statement being rewritten
 	if sk.keepReturns {
 		if named {
 			return decline("named results in tail position")
@@ -845,30 +853,37 @@ func (st *pkgState) expand(fi *funcInfo, call *ast.CallExpr, sk sink) ([]ast.Stm
 		ss = append(ss, &ast.BranchStmt{TokPos: at, Tok: token.BREAK, Label: ident(label)})
 		return &ast.BlockStmt{Lbrace: at, List: ss, Rbrace: at}
 	}
-	astutil.Apply(body, func(c *astutil.Cursor) bool {
-		switch x := c.Node().(type) {
-		case *ast.FuncLit:
-			return false
-		case *ast.ReturnStmt:
-			var rhs []ast.Expr
-			switch {
-			case len(results) == 0:
-			case len(x.Results) == 0:
-				for _, r := range results {
-					if r.name == "" || r.name == "_" {
-						rhs = nil
-						break
+	for si := range body.List {
+		deferred = deferredAt[si]
+		// a wrapper block gives every statement (also a top-level return) a parent to be replaced in
+		wrap := &ast.BlockStmt{List: []ast.Stmt{body.List[si]}}
+		astutil.Apply(wrap, func(c *astutil.Cursor) bool {
+			switch x := c.Node().(type) {
+			case *ast.FuncLit:
+				return false
+			case *ast.ReturnStmt:
+				var rhs []ast.Expr
+				switch {
+				case len(results) == 0:
+				case len(x.Results) == 0:
+					for _, r := range results {
+						if r.name == "" || r.name == "_" {
+							rhs = nil
+							break
+						}
+						rhs = append(rhs, st.alias(r.id))
 					}
-					rhs = append(rhs, st.alias(r.id))
+				default:
+					rhs = x.Results
 				}
-			default:
-				rhs = x.Results
+				c.Replace(leave(x.Pos(), rhs))
+				return false
 			}
-			c.Replace(leave(x.Pos(), rhs))
-			return false
-		}
-		return true
-	}, nil)
+			return true
+		}, nil)
+		body.List[si] = wrap.List[0]
+	}
+	deferred = deferredAt[len(deferredAt)-1]
 	if len(results) == 0 {
 		body.List = append(body.List, leave(pos, nil).List...)
 	} else {
